@@ -20,7 +20,7 @@ RULE = ("a case is (scheme, configuration, JSON database with UTF-8 keywords inc
         "bytes handed to the search callback deserialize (scheme's SSEResult) to DB.get(w, empty); hex/int views reproduce the "
         "JSON identifiers; every workflow step whose prerequisites hold completes. Non-trivial = at least one re-creation "
         "between steps or a restart, and at least one absent keyword; distinct = distinct (scheme, config, database, plan).")
-ASSUMPTIONS = ["the server's 1 s cleanup pause is replaced by a zero-delay shim (it only throttles; its schedule relevance is C12's subject)",
+ASSUMPTIONS = ["the server's 1 s cleanup pause is a gate owned by the driver: it elapses either before the re-created client connects or only after that client has completed its handshake (reconnect inside the pause)",
                "a 'server restart' in this check is: stop listening, drop all in-memory state (fresh ServicesManager), listen again",
                "silence for 30 s on a loopback connection that is still open is counted as inconclusive, not as a violation"]
 
@@ -73,17 +73,54 @@ async def workflow(case):
         cfg["param_n"] = S.distinct_ids(db)
     if scheme == "CGKO06.SSE1":
         cfg["param_dictionary_size"] = max(cfg["param_dictionary_size"], len(db))
+    from vlib import sched
+    gate = sched.Gate()
+    rig.set_sleep(gate.sleep)  # the server's cleanup pause elapses when this driver says so
     srv = await rig.Server().start()
     svc = None
     recreate = list(case["recreate"])
+    early = list(case.get("early", []))
+    pending = {"n": 0}
+
+    async def settle():
+        while pending["n"] > 0:
+            for _ in range(600):
+                if gate.pending:
+                    break
+                await asyncio.sleep(0.005)
+            if not gate.release_one():
+                pending["n"] = 0
+                break
+            pending["n"] -= 1
+            await asyncio.sleep(0)
+
+    async def close_current():
+        nonlocal svc
+        if svc is not None:
+            had_conn = svc.websocket is not None
+            await svc.close_service()
+            if had_conn:
+                pending["n"] += 1
+            svc = None
 
     async def fresh(force=False):
         nonlocal svc
         flag = recreate.pop(0) if recreate else True
+        in_pause = early.pop(0) if early else False
         if svc is None or flag or force:
-            if svc is not None:
-                await svc.close_service()
-            svc = Service(sid)
+            await close_current()
+            if in_pause and pending["n"] and not force:
+                # the re-created client connects while the server is still inside the cleanup pause of the previous connection
+                svc = Service(sid)
+                try:
+                    await asyncio.wait_for(svc.load_websocket(), 30)
+                except Exception as e:
+                    raise Violation("%s: a client re-created right after close_service cannot connect (within the server's cleanup "
+                                    "pause): %s: %s" % (scheme, type(e).__name__, e), "%s:reconnect_in_pause:%s" % (scheme, type(e).__name__))
+                await settle()
+            else:
+                await settle()
+                svc = Service(sid)
         return svc
 
     try:
@@ -113,9 +150,8 @@ async def workflow(case):
         for qi, (w_str, kind) in enumerate(case["queries"]):
             force = False
             if case.get("restart_at") is not None and qi == case["restart_at"]:
-                if svc is not None:
-                    await svc.close_service()
-                    svc = None
+                await close_current()
+                await settle()
                 await srv.restart()
                 restarts += 1
                 force = True
@@ -152,7 +188,20 @@ async def workflow(case):
         with contextlib.suppress(Exception):
             if svc is not None:
                 await svc.close_service()
-        await srv.stop()
+        stopping = {"done": False}
+
+        async def auto_release():
+            while not stopping["done"]:
+                gate.release_one()
+                await asyncio.sleep(0.005)
+        rel = asyncio.ensure_future(auto_release())
+        try:
+            await asyncio.wait_for(srv.stop(), 30)
+        finally:
+            stopping["done"] = True
+            with contextlib.suppress(BaseException):
+                await rel
+            rig.set_sleep(rig._fast_sleep)
 
 
 async def cli_workflow(case):
@@ -299,8 +348,9 @@ def st_case(draw, scheme):
     if draw(st.integers(0, 3)) == 0 and queries:
         queries.append(list(queries[0]))
     recreate = draw(st.lists(st.booleans(), min_size=len(plan) + len(queries), max_size=len(plan) + len(queries)))
+    early = draw(st.lists(st.booleans(), min_size=len(recreate), max_size=len(recreate)))
     restart_at = draw(st.one_of(st.none(), st.integers(0, len(queries) - 1)))
-    return {"scheme": scheme, "cfg": cfg, "jsondb": jsondb, "plan": plan, "queries": queries, "recreate": recreate,
+    return {"scheme": scheme, "cfg": cfg, "jsondb": jsondb, "plan": plan, "queries": queries, "recreate": recreate, "early": early,
             "restart_at": restart_at, "seed": draw(st.integers(0, 2 ** 32))}
 
 
@@ -312,6 +362,8 @@ def body(case, res):
           "restart" if case["restart_at"] is not None else "no_restart", "object_reused_somewhere" if reuse else "always_recreated"]
     if any(k == "absent" for _, k in case["queries"]):
         cl.append("has_absent_query")
+    if any(r and e for r, e in zip(case["recreate"][1:], case.get("early", [])[1:])):
+        cl.append("reconnect_inside_cleanup_pause")
     if any(any(ord(ch) > 127 for ch in k) for k, _ in case["jsondb"]):
         cl.append("non_ascii_keyword")
     res.count([case["scheme"], case.get("mode"), sorted((k, repr(v)) for k, v in case["cfg"].items()), case["jsondb"], case["plan"], case["queries"],
